@@ -498,6 +498,8 @@ Projection(m, starts) ==
 (* is parsed with the item; an additional record that starts with 00 00 29  *)
 (* is the EDNS record).  Where the spec does not know the RDATA layout the  *)
 (* verdict is "und" (undecided) and only the two codecs are compared.       *)
+(* The same items are also read from a byte string with no message around   *)
+(* it (the routes that never decompress: PlainName, PlainView below).       *)
 (*                                                                          *)
 (* NewRule = TRUE describes what the new codec does today                   *)
 (* (D_new_ptr_rule): a pointer must point to an offset >= 12 that lies      *)
